@@ -5,6 +5,7 @@ package main
 import (
 	"fmt"
 	"os"
+	"strings"
 
 	classifier "github.com/google/licenseclassifier/v2"
 )
@@ -76,4 +77,36 @@ func cmdProbeHyphen() {
 		}
 	}
 	fmt.Println("found", found)
+}
+
+// cmdProbeSurrogate: debugging aid / witness: a dictionary with more than 55296 words gives some words token ids in
+// the UTF-16 surrogate range; the ids are used as runes for go-diff, whose string round trip turns them into U+FFFD.
+func cmdProbeSurrogate() {
+	w := func(prefix string, i int) string {
+		s := prefix
+		for v := i + 1; v > 0; v /= 26 {
+			s += string(rune('a' + v%26))
+		}
+		return s
+	}
+	var filler []string
+	for i := 0; i < 55300; i++ {
+		filler = append(filler, w("f", i))
+	}
+	var k, o []string
+	for i := 0; i < 30; i++ {
+		k = append(k, w("kk", i))
+		o = append(o, w("oo", i))
+	}
+	c := classifier.NewClassifier(0.8)
+	c.AddContent("License", "Filler", "f.txt", []byte(strings.Join(filler, " ")))
+	c.AddContent("License", "K", "k.txt", []byte(strings.Join(k, " ")))
+	c.AddContent("License", "O", "o.txt", []byte(strings.Join(o, " ")))
+	in := append([]string{}, k...)
+	in[15] = o[3]
+	res := c.Match([]byte(strings.Join(in, " ")))
+	fmt.Printf("dictionary %d words; input = K with word 16 replaced by a word of O: %s\n", c.VerifDictSize(), fmtResults(res))
+	for _, m := range res.Matches {
+		fmt.Printf("  %s confidence %v\n", m.Name, m.Confidence)
+	}
 }
